@@ -154,6 +154,53 @@ fn gen_f64_weights(r: &mut Rng, big: bool) -> (&'static str, Vec<f64>) {
     }
 }
 
+/// 2^e as an f64, exactly (normal or subnormal)
+fn pow2(e: i32) -> f64 {
+    if e >= -1022 {
+        f64::from_bits(((e + 1023) as u64) << 52)
+    } else {
+        f64::from_bits(1u64 << (e + 1074))
+    }
+}
+
+/// the exponents of the SCALE family: integer weights times 2^s are exact f64 values and so are all their
+/// sums and differences, so the integer model applies unchanged (as partitions)
+fn pick_scale(r: &mut Rng) -> i32 {
+    match r.below(12) {
+        0 => -1074 + r.range(4, 10) as i32, // subnormal
+        1 => -1000,
+        2 => -300,
+        3 => -70,
+        4 => -53,
+        5 => -52,
+        6 => -10,
+        7 => 0,
+        8 => 10,
+        9 => 52,
+        10 => 300,
+        _ => 900,
+    }
+}
+
+/// Greedy / KarmarkarKarp on float weights: through `coupe::Real` (the Ord wrapper; the only way to give
+/// float weights to KarmarkarKarp) or as plain f64 (Greedy only)
+fn call_float(alg: u64, k: usize, real: bool, wf: Vec<f64>, p0: Vec<usize>) -> Guarded<Result<Vec<usize>, coupe::Error>> {
+    guarded(0, Duration::from_secs(20), move || {
+        let mut p = p0;
+        let r = if real {
+            let wr: Vec<coupe::Real> = wf.iter().map(|x| coupe::Real::from(*x)).collect();
+            if alg == 0 {
+                coupe::Greedy { part_count: k }.partition(&mut p, wr.iter().cloned())
+            } else {
+                coupe::KarmarkarKarp { part_count: k }.partition(&mut p, wr.iter().cloned())
+            }
+        } else {
+            coupe::Greedy { part_count: k }.partition(&mut p, wf.iter().cloned())
+        };
+        r.map(|()| p)
+    })
+}
+
 /// weights of a given length for the reuse stream (values: random, ties, zeros, small alphabet, powers of two)
 fn gen_values(r: &mut Rng, n: usize) -> Vec<i64> {
     match r.below(6) {
@@ -215,6 +262,7 @@ fn main() {
     let mut reuse_sequences = 0usize;
     let mut reuse_calls = 0usize;
     let mut f64_genuine = 0usize;
+    let mut scaled = 0usize;
     let mut idx = 0usize;
     while idx < a.cases {
         let mut r = rng.fork();
@@ -328,6 +376,98 @@ fn main() {
                 earlier.push(this_call);
                 idx += 1;
             }
+            if hangs > 3 {
+                break;
+            }
+            continue;
+        }
+        if r.chance(1, 6) {
+            // ---- SCALE family: the integer families times 2^s (subnormal .. 2^900), every value, sum and
+            // difference exact, so the integer model must be matched partition for partition -- through
+            // coupe::Real for both algorithms and as plain f64 for Greedy.  1 case in 8 uses a scale that is
+            // not a power of two (1e-21, 1e-300): values round, so Greedy is compared with the binary64
+            // model (mk12f) and KarmarkarKarp is judged by the checker only (mk12kf).
+            let (fam, alg, ws, k, plen) = gen_case(&mut r, &a.tier);
+            let this = idx;
+            idx += 1;
+            if let Some(o) = a.only {
+                if o != this {
+                    continue;
+                }
+            }
+            let p0: Vec<usize> = vec![usize::MAX; plen];
+            let exact = !r.chance(1, 8) || ws.iter().any(|x| x.abs() >= 1 << 44);
+            let (scale, scale_txt): (f64, String) = if exact {
+                let e = pick_scale(&mut r);
+                (pow2(e), format!("\"2^{}\"", e))
+            } else if r.chance(1, 2) {
+                (1e-21, "\"1e-21\"".to_string())
+            } else {
+                (1e-300, "\"1e-300\"".to_string())
+            };
+            let wf: Vec<f64> = ws.iter().map(|x| *x as f64 * scale).collect();
+            scaled += 1;
+            let real_for_greedy = r.chance(2, 3);
+            let res = call_float(alg, k, alg == 1 || real_for_greedy, wf.clone(), p0.clone());
+            // Greedy: the other float type as well (exact scales: both must be the integer model's partition)
+            let resf = if alg == 0 && exact {
+                Some(call_float(0, k, !real_for_greedy, wf.clone(), p0.clone()))
+            } else {
+                None
+            };
+            for g in std::iter::once(&res).chain(resf.iter()) {
+                match g {
+                    Guarded::Hang => hangs += 1,
+                    Guarded::Panic(_) => panics += 1,
+                    _ => {}
+                }
+            }
+            let bits: Vec<u128> = wf.iter().map(|x| x.to_bits() as u128).collect();
+            let coq = if exact {
+                format!(
+                    "mk12 {}%N {} {}%nat {} {} {}",
+                    alg,
+                    coq_zlist(ws.iter().map(|x| *x as i128)),
+                    k,
+                    coq_nlist(p0.iter().map(|x| *x as u128)),
+                    coq_impl_partition(&res),
+                    match &resf {
+                        None => "None".to_string(),
+                        Some(g) => format!("(Some {})", coq_impl_partition(g)),
+                    }
+                )
+            } else {
+                format!(
+                    "{} {} {}%nat {} {}",
+                    if alg == 0 { "mk12f" } else { "mk12kf" },
+                    coq_nlist(bits.iter().cloned()),
+                    k,
+                    coq_nlist(p0.iter().map(|x| *x as u128)),
+                    coq_impl_partition(&res)
+                )
+            };
+            let wtxt: Vec<String> = wf.iter().map(|x| format!("{:e}", x)).collect();
+            let btxt: Vec<String> = bits.iter().map(|x| x.to_string()).collect();
+            let json = format!(
+                "{{\"algorithm\":\"{}\",\"weight_type\":\"{}\",\"integer_weights\":{},\"scale\":{},\"weights_f64\":[{}],\"weights_bits\":[{}],\"part_count\":{},\"partition_len\":{},\"impl\":{},\"impl_other_float_type\":{}}}",
+                if alg == 0 { "Greedy" } else { "KarmarkarKarp" },
+                if alg == 1 || real_for_greedy { "coupe::Real" } else { "f64" },
+                json_i64s(&ws),
+                scale_txt,
+                wtxt.join(","),
+                btxt.join(","),
+                k,
+                plen,
+                json_impl_partition(&res),
+                match &resf {
+                    None => "null".to_string(),
+                    Some(g) => json_impl_partition(g),
+                }
+            );
+            let key = format!("scale|{}|{:?}|{}|{}|{}", alg, bits, k, plen, real_for_greedy);
+            let nontrivial = plen == ws.len() && k >= 2 && ws.len() >= 3 && ws.iter().any(|x| *x != 0);
+            let fam = format!("{}:scaled{}:{}", if alg == 0 { "greedy" } else { "kk" }, if exact { "" } else { "_inexact" }, fam);
+            w.push(coq, json, &key, nontrivial, &fam);
             if hangs > 3 {
                 break;
             }
@@ -460,7 +600,7 @@ fn main() {
         }
     }
     w.finish(&format!(
-        "\"hangs\":{},\"panics\":{},\"f64_runs\":{},\"f64_genuine\":{},\"reuse_sequences\":{},\"reuse_calls\":{}",
-        hangs, panics, f64_runs, f64_genuine, reuse_sequences, reuse_calls
+        "\"hangs\":{},\"panics\":{},\"f64_runs\":{},\"f64_genuine\":{},\"reuse_sequences\":{},\"reuse_calls\":{},\"scaled\":{}",
+        hangs, panics, f64_runs, f64_genuine, reuse_sequences, reuse_calls, scaled
     ));
 }
